@@ -184,9 +184,38 @@ pub fn run_auth(args: &Args) -> (u64, u64) {
                 }
                 clear_hooks();
             }
-            let prm = Params { user: u, pass: p, typed_user: &case_variant(u, round), typed_pass: &case_variant(p, round + 1), salt, b: bk, a: None, storage: true };
+            // client key such that A is short (A = g^a does not depend on the account)
+            let mut ak = None;
+            {
+                let bp = wow_srp::PublicKey::from_le_bytes({ let mut x = [0u8; 32]; x[0] = 9; x }).unwrap();
+                for _ in 0..4000 {
+                    clear_hooks();
+                    let cch = wow_srp::client::SrpClientChallenge::new(ns("A"), ns("A"), 7, N_LE, bp, [0u8; 32]);
+                    if cch.client_public_key()[31] == 0 {
+                        ak = wow_srp::verif_hooks::take_log().last().map(|d| arr32(&d.used));
+                        break;
+                    }
+                }
+                clear_hooks();
+            }
+            let prm = Params { user: u, pass: p, typed_user: &case_variant(u, round), typed_pass: &case_variant(p, round + 1), salt, b: bk, a: if round % 2 == 0 { ak } else { None }, storage: true };
             if let Some(mut sess) = honest_login(&mut h, &prm) {
                 good_reconnect(&mut h, &mut sess);
+            }
+            // salts for which x = H(salt | H(U:P)) starts or ends with a zero byte (chosen with SHA-1 only; the values
+            // themselves are judged by the specification)
+            let up = sha1cat(&[u.to_ascii_uppercase().as_bytes(), b":", p.to_ascii_uppercase().as_bytes()]);
+            for want in [0usize, 19] {
+                let mut salt2 = [0u8; 32];
+                for _ in 0..3000 {
+                    rng.fill_bytes(&mut salt2);
+                    if sha1cat(&[&salt2, &up])[want] == 0 {
+                        break;
+                    }
+                }
+                h.reset("auth-hunt-x");
+                let prm = Params { user: u, pass: p, typed_user: u, typed_pass: p, salt: Some(salt2), b: None, a: None, storage: false };
+                honest_login(&mut h, &prm);
             }
         }
     }
@@ -714,6 +743,11 @@ pub fn run_adversary(args: &Args) -> (u64, u64) {
                 }
                 h.verify_reconnect(s.so, &mut s.server, cd, pr, "garbage");
                 h.reconnect_values(s.co, &s.client, cd, None);
+                // client data equal to the challenge currently on offer; proof equal to (a prefix of) the session key
+                let cur = *s.server.reconnect_challenge_data();
+                let mut pk = [0u8; 20];
+                pk.copy_from_slice(&s.server.session_key()[..20]);
+                h.verify_reconnect(s.so, &mut s.server, cur, pk, "garbage");
             }
         }
     }
